@@ -1,0 +1,5 @@
+//go:build !verif
+
+package radius
+
+func verifPoint(string) {}
